@@ -412,6 +412,9 @@ func (r *RefCount[T]) resolve(ctx context.Context, waitCh, doneCh chan struct{},
 	if waitCh != nil {
 		select {
 		case <-ctx.Done():
+			// the previous resolver call must return before we signal that we are done:
+			// otherwise the next resolver, which waits on our doneCh only, overlaps with it.
+			<-waitCh
 			return
 		case <-waitCh:
 		}
